@@ -156,8 +156,9 @@ theorem C19_upload_part_all_or_nothing (c : Cfg) (old : Option Bytes) (m i : Sid
     · exact .inr ⟨all, ha, by simpa [initSt] using h2⟩
 
 /-- **All-or-nothing for `complete_multipart_upload`** — content, metadata, upload record and part files —, at every
-    fault position (the program for `n` listed parts: `n` probes, the size rule, `create`, `n` parts, `mkdirs`, `rename`, then
-    the side files, the part files, the upload record): no temporary file; the destination holds the previous content or —
+    fault position (the program for `n ≥ 1` listed parts: `n` probes, the size rule, `create`, `n` parts, `mkdirs`, `rename`,
+    then the side files, the part files, the upload record; without a part list or with an empty one, a00e4e8, the program is
+    the refusal alone — `MalformedXML` — and nothing ever changes): no temporary file; the destination holds the previous content or —
     only if every part exists and passes
     the size rule — the parts concatenated in order; up to the last step before the rename (`k ≤ 2n + 3`) it holds the
     previous content; and as long as the destination has not been replaced by the complete new content nothing else
@@ -170,7 +171,11 @@ theorem C19_complete_all_or_nothing (c : Cfg) (old : Option Bytes) (m i : Side) 
       (k ≤ 2 * c.parts.length + 3 → s.dest = old) ∧
       ((s.mdata ≠ m ∨ s.info ≠ i ∨ s.uploadRec = false ∨ s.partsGone ≠ 0) →
         ∃ all, allParts c.parts = some all ∧ s.dest = some all) := by
-  simp only [dropAfter_eq, completeProg_eq]
+  by_cases hne : c.parts = []
+  · -- no part list, or an empty one: refused (a00e4e8), nothing has happened
+    simp only [dropAfter_eq, completeProg_nil c hne, (refusal_changes_nothing (initSt old m i) rfl).2 k]
+    simp [initSt]
+  simp only [dropAfter_eq, completeProg_eq c hne]
   rcases probes_then (.create ::
       (c.parts.map .part ++ .mkdirs c.mkdirsFails :: .rename c.renameFails :: completePost c))
       (c.parts.all Part.fine) c.parts (initSt old m i) k with h | ⟨hv, k', rfl, h⟩
@@ -197,12 +202,13 @@ theorem C19_complete_all_or_nothing (c : Cfg) (old : Option Bytes) (m i : Side) 
           · exact .inr (.inr (.inr (by simpa [initSt] using hne))))
         simpa [initSt] using this
 
-/-- **A failed `complete_multipart_upload` changes nothing.** If a listed part was never uploaded (`InvalidPart`), a part
+/-- **A failed `complete_multipart_upload` changes nothing.** If the part list is missing or empty (`MalformedXML`, a00e4e8;
+    before, an empty list produced an empty object), a listed part was never uploaded (`InvalidPart`), a part
     other than the last is below the minimum size (`EntityTooSmall`), or `done()` fails at either of its two steps, the
     call answers an error and destination, metadata, checksum record, upload record and part files are exactly as
     before, with no temporary file: the upload can be completed later. -/
 theorem C19_failed_complete_changes_nothing (c : Cfg) (old : Option Bytes) (m i : Side)
-    (h : allParts c.parts = none ∨ c.mkdirsFails = true ∨ c.renameFails = true) :
+    (h : c.parts = [] ∨ allParts c.parts = none ∨ c.mkdirsFails = true ∨ c.renameFails = true) :
     (run (completeProg c) (initSt old m i)).1 ≠ .ok ∧
     (run (completeProg c) (initSt old m i)).2.dest = old ∧
     (run (completeProg c) (initSt old m i)).2.tmp = false ∧
@@ -210,7 +216,11 @@ theorem C19_failed_complete_changes_nothing (c : Cfg) (old : Option Bytes) (m i 
     (run (completeProg c) (initSt old m i)).2.info = i ∧
     (run (completeProg c) (initSt old m i)).2.uploadRec = true ∧
     (run (completeProg c) (initSt old m i)).2.partsGone = 0 := by
-  rw [completeProg_eq]
+  by_cases hne : c.parts = []
+  · rw [completeProg_nil c hne, (refusal_changes_nothing (initSt old m i) rfl).1]
+    simp [initSt]
+  replace h : allParts c.parts = none ∨ c.mkdirsFails = true ∨ c.renameFails = true := h.resolve_left hne
+  rw [completeProg_eq c hne]
   obtain ⟨code, hcode, hr⟩ := run_probes (.create ::
       (c.parts.map .part ++ .mkdirs c.mkdirsFails :: .rename c.renameFails :: completePost c))
       (c.parts.all Part.fine) c.parts (initSt old m i)
@@ -236,12 +246,12 @@ theorem C19_failed_complete_changes_nothing (c : Cfg) (old : Option Bytes) (m i 
     · rw [h]; simp [run, exec, cleanup, initSt]
     · rw [h]; cases c.mkdirsFails <;> simp [run, exec, cleanup, initSt]
 
-/-- **A successful `complete_multipart_upload` stores everything.** Every listed part exists and passes the size rule, no
+/-- **A successful `complete_multipart_upload` stores everything.** The list names a part, every listed part exists and passes the size rule, no
     fault: the answer is OK, the destination holds the parts concatenated in order, the metadata is the upload's — none if it
     has none: a previous object's metadata does not survive (47e9b00) —, the checksum record is new (empty), the upload
     record and every listed part file are gone, no temporary file. -/
 theorem C19_successful_complete (c : Cfg) (old : Option Bytes) (m i : Side) (all : Bytes)
-    (hb : allParts c.parts = some all) (h1 : c.mkdirsFails = false) (h2 : c.renameFails = false)
+    (hne : c.parts ≠ []) (hb : allParts c.parts = some all) (h1 : c.mkdirsFails = false) (h2 : c.renameFails = false)
     (h3 : c.metaFails = false) (h4 : c.infoFails = false) :
     (run (completeProg c) (initSt old m i)).1 = .ok ∧
     (run (completeProg c) (initSt old m i)).2.dest = some all ∧
@@ -250,7 +260,7 @@ theorem C19_successful_complete (c : Cfg) (old : Option Bytes) (m i : Side) (all
     (run (completeProg c) (initSt old m i)).2.info = .new ∧
     (run (completeProg c) (initSt old m i)).2.uploadRec = false ∧
     (run (completeProg c) (initSt old m i)).2.partsGone = c.parts.length := by
-  rw [completeProg_eq]
+  rw [completeProg_eq c hne]
   obtain ⟨code, _, hr⟩ := run_probes (.create ::
       (c.parts.map .part ++ .mkdirs c.mkdirsFails :: .rename c.renameFails :: completePost c))
       (c.parts.all Part.fine) c.parts (initSt old m i)
@@ -295,10 +305,10 @@ theorem C19_done_failure_guarded (c : Cfg) (old : Option Bytes) (m i : Side)
       · cases c.mkdirsFails <;> simp [run, exec, cleanup, initSt]
   · cases hall : allParts c.parts with
     | none =>
-      have := C19_failed_complete_changes_nothing c old m i (.inl hall)
+      have := C19_failed_complete_changes_nothing c old m i (.inr (.inl hall))
       exact ⟨this.1, this.2.1, this.2.2.1⟩
     | some all =>
-      have := C19_failed_complete_changes_nothing c old m i (.inr h)
+      have := C19_failed_complete_changes_nothing c old m i (.inr (.inr h))
       exact ⟨this.1, this.2.1, this.2.2.1⟩
 
 /-- **Concurrent writers: exactly one writer's bytes.** `n` writers (any `n`, each with any frames) put to one
